@@ -18,7 +18,7 @@ except ImportError:      # imported with tools/props on sys.path
 
 PROP = "C19"
 LEVEL = "proof"
-GEN_UNITS = ["GenUtils", "GenUtils2"]
+GEN_UNITS = ["GenUtils", "GenUtils2", "GenUtils3"]
 COQ_TARGETS = ["Props/C19.vo", "Model/Harness.vo"]
 THEOREM_FILES = ["Props/C19.v"]
 COQ_IMPORTS = ("From Coq Require Import List ZArith Bool.\n"
@@ -27,15 +27,20 @@ RULE = ("malformed stream: per operation and per precondition, descriptors viola
         "shapes (distinct sizes, cubical, singleton modes, 1-way, 2-way) incl. length-1 vectors, swapped matrix dims, short "
         "factor lists, repeated/negative/out-of-range modes, non-permutations (too short, over-long with repeats that still mention "
         "every mode, shifted, negative, empty), size tuples rearranged or re-factored with the same product (ttv/ttm/mttkrp), "
-        "wrong-count reshapes, inconsistent components, bad options; tenmat + / - on pairs (tshape, rdims, cdims) incl. N x 1 against 1 x N "
+        "wrong-count reshapes, inconsistent components, bad options; tensor.scale with mode lists in any order (factor sizes in ascending "
+        "mode order = well-formed, in the caller's order of an unsorted list = ill-formed); linear indices on both sides of -prod(shape) and "
+        "prod(shape); mttkrp with matrices without columns (sparse / Kruskal receivers); gcp_opt with a Kruskal or list guess next to a "
+        "rank <= 0; tenmat + / - on pairs (tshape, rdims, cdims) incl. N x 1 against 1 x N "
         "and singleton-mode splits; every stream repeated on operand kinds (sparse: empty / X - X / one entry / explicit zeros / reversed; "
         "dense: C-ordered, all-zero, strided view; ktensor: C-ordered factors, normalised; multiplicands C-ordered / strided); "
         "plus well-formed controls. non-trivial = the case violates a precondition (controls are trivial); "
         "distinct = distinct (op, descriptor)")
 EXPLANATION = ("Theorems: for every covered operation guard_<op> (transliteration of the checks the code performs, numpy's "
                "implicit checks and early returns included; mode selection is the tt_dimscheck regenerated from "
-               "pyttb_utils.py on this run) rejects exactly when pre_<op> fails (guard = decide pre, for all arguments); where the "
-               "code is still weaker (open findings) the full statement is refuted by a witness and the partial version is proved. "
+               "pyttb_utils.py on this run; linear indices go through the regenerated tt_ind2sub, matricisations through the regenerated "
+               "gather_wrap_dims; the first step of every mttkrp is bridged to the regenerated get_mttkrp_factors) rejects exactly when pre_<op> fails (guard = decide pre, for all arguments); where the "
+               "code is still weaker (open / known findings A-28, C19-N11, C19-N18, C19-N20) the full statement is refuted by a witness "
+               "and the partial version is proved. "
                "Correspondence: pyttb vs guard_<op> and pre_<op> on the malformed stream (Rejected = any exception before a value is "
                "returned), receiver snapshot compared byte-for-byte; exactly one behaviour is accepted per request (inside the "
                "trigger of an open finding pyttb is compared with the precondition alone and the mismatch attributed).")
@@ -46,7 +51,15 @@ ASSUMPTIONS = ["which exception type is raised is not part of the property and i
                "values of operands are fixed small integers: rejection is assumed to depend on shapes/lengths/modes/options; "
                "memory layout, stored pattern (no entry / one / explicit zeros / reversed) and all-zero data are varied (operand kinds) "
                "and must not change the outcome",
-               "tensor.nvecs: only the mode argument is modelled; gcp_opt: rank <= 0 is refused by an arithmetic accident modelled as one check"]
+               "tensor.nvecs: only the mode argument is modelled; gcp_opt: rank <= 0 is refused by an arithmetic accident modelled as one check",
+               "tensor.scale(factor, dims): dims is read as a SET of modes (tt_dimscheck sorts it, C02's specification of scale does the same): "
+               "the factor must have the sizes of the listed modes in ascending mode order",
+               "linear indices follow Python's convention (pyttb_utils.tt_ind2sub shifts negative indices by prod(shape)): "
+               "-prod(shape) <= k < prod(shape) is well-formed",
+               "mttkrp with matrices that have no column is generated for sparse and Kruskal receivers only (tensor / ttensor / sumtensor.mttkrp "
+               "refuse even the well-formed request: numpy cannot reshape the empty Khatri-Rao product; refusing a well-formed request is outside C19)",
+               "subscript arrays are lists of rows of one length; a p x 0 array with p > 0 (the sparse constructor's 'empty array in weird format') "
+               "and sptensor.extract with an array without rows are not modelled"]
 
 
 CAP = {"quick": 150, "thorough": 1200}
